@@ -272,6 +272,7 @@ def self_test():
 
 
 LAWS = [
+    given_law("gaussian_xl", gauss_cases((256, 384)), gauss_body, {"quick": 0, "thorough": 12}, shards={"quick": 1, "thorough": 16}),
     given_law("group", group_cases(), group_body, {"quick": 300, "thorough": 3750}, shards={"quick": 3, "thorough": 16}),
     given_law("differential", diff_cases(), diff_body, {"quick": 400, "thorough": 6250}, shards={"quick": 3, "thorough": 16}),
     given_law("gaussian", gauss_cases((32, 64)), gauss_body, {"quick": 250, "thorough": 2000}, shards={"quick": 3, "thorough": 16}),
